@@ -45,278 +45,12 @@ def _itypes():
     return ITYPES
 
 
-# --------------------------------------------------------------------------
-# AST generator.  selector = [compound, (comb, compound)*]
-# compound = dict(head, simples, pe);  head = None | ('type', ns, name) | ('univ', ns)
-# simple = ('id', n) | ('class', n) | ('attr', ns, n, op, val) | ('pc', n) | ('pfn', n, args) | ('not', arg)
-# pe = (two_colon, name, args | None);  ns in (None, '*', '')
-# names are (spelling, value) pairs
-# --------------------------------------------------------------------------
-LEGACY = ['first-line', 'first-letter', 'before', 'after']
-PCLASSES = ['hover', 'focus', 'link', 'visited', 'active', 'first-child', 'last-child', 'root', 'empty', 'checked',
-            'enabled', 'disabled', 'target', 'only-child', 'x-y']
-PFUNCS = ['nth-child', 'nth-last-child', 'nth-of-type', 'nth-last-of-type', 'lang', 'f', 'dir', 'x-fn']
-PELEMS = ['selection', 'first-line', 'first-letter', 'before', 'after', 'marker', 'x-pe']
-ATTOPS = ['=', '~=', '|=', '^=', '$=', '*=']
-ANB = [['odd'], ['even'], ['2n', '+', '1'], ['2n+1'], ['-n', '+', '3'], ['n'], ['+5'], ['-2n-1'], ['2n', '-', '1'],
-       ['de'], ['en-US'], ['"x"'], ['3'], ['-', 'n'], ['+', 'n', '+', '2'], ['1.5em'], ['a', 'b'], ['0n+0']]
+from harness import c16_ast as A
+from harness.c16_ast import gen_selector, count
 
 
-def name(rng, start=True, escapes=True):
-    for _ in range(20):
-        sp, val = G.gen_name(rng, start=start, maxlen=4, escapes=escapes)
-        low = val.lower().replace('\\', '')
-        if low in ('u', 'url', 'not', 'and') or low.startswith('u+'):
-            continue
-        if sp.endswith('\r'):
-            continue      # a hex escape terminated by CR would swallow a following LF (CRLF is one terminator)
-        return sp, val
-    return 'x', 'x'
-
-
-def respell(rng, word):
-    """a spelling of an ASCII keyword that normalises to it: letter case, simple and hex escapes"""
-    out = ''
-    for c in word:
-        r = rng.random()
-        if r < 0.55:
-            out += c
-        elif r < 0.8:
-            out += c.upper()
-        elif r < 0.9 and c not in '0123456789abcdefABCDEF-' and c.isalpha():
-            out += '\\' + c
-        else:
-            out += '\\%x ' % ord(rng.choice([c, c.upper()]))
-    return out
-
-
-def string_body(rng, quote):
-    """string content without backslashes in its value (how a backslash is serialised is the string property's
-    business, not C16's); hex escapes of letters only"""
-    out = ''
-    for _ in range(rng.randrange(0, 6)):
-        r = rng.random()
-        if r < 0.7:
-            out += G.pick(rng, 'abc xyz019;{}()[]/*@#.,:-_%!>+~|=')
-        elif r < 0.8:
-            out += "'" if quote == '"' else '"'
-        elif r < 0.9:
-            out += G.pick(rng, G.NONASCII[:6])
-        else:
-            out += '\\%x ' % ord(G.pick(rng, 'ghxyzGH'))
-    return out
-
-
-def gen_ns(rng):
-    r = rng.random()
-    return None if r < 0.8 else ('*' if r < 0.92 else '')
-
-
-def gen_attr(rng):
-    n = name(rng)
-    if rng.random() < 0.35:
-        return ('attr', gen_ns(rng), n, None, None)
-    op = rng.choice(ATTOPS)
-    if rng.random() < 0.5:
-        v = ('ident', name(rng))
-    else:
-        q = rng.choice('"\'')
-        s = string_body(rng, q)
-        v = ('string', (q + s + q, None))
-    return ('attr', gen_ns(rng), n, op, v)
-
-
-def gen_args(rng):
-    return list(rng.choice(ANB))
-
-
-def gen_simple(rng, allow_not=True):
-    r = rng.random()
-    if r < 0.2:
-        return ('id', name(rng, start=rng.random() < 0.7))
-    if r < 0.45:
-        return ('class', name(rng))
-    if r < 0.65:
-        return gen_attr(rng)
-    if r < 0.77:
-        return ('pc', rng.choice(PCLASSES))
-    if r < 0.86:
-        return ('pfn', rng.choice(PFUNCS), gen_args(rng))
-    if not allow_not:
-        return ('class', name(rng))
-    k = rng.random()
-    if k < 0.25:
-        arg = ('type', gen_ns(rng), name(rng))
-    elif k < 0.33:
-        arg = ('univ', gen_ns(rng))
-    else:
-        arg = gen_simple(rng, allow_not=False)
-    return ('not', arg)
-
-
-def gen_compound(rng, last):
-    r = rng.random()
-    head = None if r < 0.3 else (('univ', gen_ns(rng)) if r < 0.42 else ('type', gen_ns(rng), name(rng)))
-    simples = [gen_simple(rng) for _ in range(rng.choice([0, 0, 1, 1, 1, 2, 2, 3, 4]))]
-    pe = None
-    if rng.random() < (0.3 if last else 0.05):
-        nm = rng.choice(PELEMS)
-        two = True if nm not in LEGACY else rng.random() < 0.5
-        pe = (two, nm, gen_args(rng) if (two and rng.random() < 0.2) else None)
-    if head is None and not simples and pe is None:
-        simples = [('class', name(rng))]
-    return dict(head=head, simples=simples, pe=pe)
-
-
-def gen_selector(rng, maxc=4):
-    n = rng.choice([1, 1, 1, 2, 2, 3, maxc])
-    sel = [gen_compound(rng, n == 1)]
-    for i in range(1, n):
-        sel.append((rng.choice([' ', ' ', '>', '+', '~']), gen_compound(rng, i == n - 1)))
-    return sel
-
-
-def count_simple(s):
-    k = s[0]
-    if k == 'id':
-        return (1, 0, 0)
-    if k in ('class', 'attr'):
-        return (0, 1, 0)
-    if k in ('pc', 'pfn', 'univ'):
-        return (0, 0, 0)
-    if k == 'type':
-        return (0, 0, 1)
-    if k == 'not':
-        return count_simple(s[1])
-    raise ValueError(k)
-
-
-def count(sel):
-    """(ids, classes + attributes, types + pseudo-elements) by construction"""
-    b = c = d = 0
-    comps = [sel[0]] + [x[1] for x in sel[1:]]
-    for comp in comps:
-        if comp['head'] and comp['head'][0] == 'type':
-            d += 1
-        if comp['pe']:
-            d += 1
-        for s in comp['simples']:
-            x = count_simple(s)
-            b, c, d = b + x[0], c + x[1], d + x[2]
-    return (0, b, c, d)
-
-
-# ---- rendering.  level 0 = canonical (no optional white space, no comments, names as generated but unescaped
-# spelling is kept: the AST holds the spelling); level 1 = random spelling
-class Sp:
-    def __init__(self, rng, level):
-        self.rng, self.level = rng, level
-
-    def comment(self):
-        body = ''.join(G.pick(self.rng, 'ab *\n/{};x,>+~[]():.#') for _ in range(self.rng.randrange(0, 5))).replace('*/', '* /')
-        return '/*' + body + '*/'
-
-    def ws(self):
-        return ''.join(G.pick(self.rng, G.WS) for _ in range(self.rng.randrange(1, 3)))
-
-    def ows(self, p=0.3):
-        """optional white space, possibly with comments"""
-        if self.level == 0:
-            return ''
-        out = ''
-        while self.rng.random() < p:
-            out += self.ws() if self.rng.random() < 0.6 else self.comment()
-        return out
-
-    def oc(self, p=0.15):
-        """optional comments only"""
-        if self.level == 0:
-            return ''
-        out = ''
-        while self.rng.random() < p:
-            out += self.comment()
-        return out
-
-    def kw(self, word):
-        return word if self.level == 0 else respell(self.rng, word)
-
-    def case(self, sp):
-        """the name in another letter case (a different, equally counted, selector)"""
-        if self.level == 0 or self.rng.random() < 0.7:
-            return sp
-        return ''.join(c.swapcase() if (c.isascii() and c.isalpha() and self.rng.random() < 0.5 and (i == 0 or sp[i - 1] != '\\')) else c
-                       for i, c in enumerate(sp))
-
-
-def r_ns(ns):
-    return '' if ns is None else ns + '|'
-
-
-def r_args(sp, args):
-    out = sp.ows()
-    for i, a in enumerate(args):
-        if i:
-            out += sp.ows(0.5) if sp.level else ''
-            # two adjacent word-like tokens need a separator
-            prev = args[i - 1]
-            if (prev[-1].isalnum() or prev[-1] in '-_') and (a[0].isalnum() or a[0] in '-_.') and not out[-1:].isspace() and not out.endswith('*/'):
-                out += ' '
-            elif prev in '+-' and a[0] in '+-.0123456789' and not out[-1:].isspace() and not out.endswith('*/'):
-                out += ' '
-            elif sp.level == 0 and prev in '+-':
-                pass
-        out += a
-    return out + sp.ows()
-
-
-def r_simple(sp, s):
-    k = s[0]
-    if k == 'id':
-        return '#' + s[1][0]
-    if k == 'class':
-        return '.' + s[1][0]
-    if k == 'attr':
-        _, ns, n, op, v = s
-        out = '[' + sp.ows() + r_ns(ns) + n[0] + sp.ows()
-        if op:
-            out += op + sp.ows() + v[1][0] + sp.ows()
-        return out + ']'
-    if k == 'pc':
-        return ':' + sp.kw(s[1])
-    if k == 'pfn':
-        return ':' + sp.kw(s[1]) + '(' + r_args(sp, s[2]) + ')'
-    if k == 'type':
-        return r_ns(s[1]) + s[2][0]
-    if k == 'univ':
-        return r_ns(s[1]) + '*'
-    if k == 'not':
-        return ':' + sp.kw('not') + '(' + sp.ows() + r_simple(sp, s[1]) + sp.ows() + ')'
-    raise ValueError(k)
-
-
-def r_compound(sp, c):
-    out = ''
-    if c['head']:
-        out += r_simple(sp, c['head'])
-    for s in c['simples']:
-        out += sp.oc() + r_simple(sp, s)
-    if c['pe']:
-        two, nm, args = c['pe']
-        out += sp.oc() + ('::' if two else ':') + sp.kw(nm)
-        if args is not None:
-            out += '(' + r_args(sp, args) + ')'
-    return out
-
-
-def render(sp, sel):
-    out = sp.ows() + r_compound(sp, sel[0])
-    for comb, c in sel[1:]:
-        if comb == ' ':
-            out += sp.oc() + (sp.ws() if sp.level else ' ') + sp.ows(0.15)
-        else:
-            out += sp.ows() + comb + sp.ows()
-        out += r_compound(sp, c)
-    return out + sp.ows()
+def render_text(rng, sel, level):
+    return A.render(rng, sel, level)[0]
 
 
 # --------------------------------------------------------------------------
@@ -515,14 +249,14 @@ def gen_member(rng, pool):
         return rng.choice(pool)
     if r < 0.85:
         sel = gen_selector(rng, maxc=2)
-        return render(Sp(rng, rng.choice([0, 1])), sel)
+        return render_text(rng, sel, rng.choice([0, 1]))
     if r < 0.93:
-        return mutate(rng, render(Sp(rng, 0), gen_selector(rng, maxc=2)))
+        return mutate(rng, render_text(rng, gen_selector(rng, maxc=2), 0))
     return gen_soup(rng, 4)
 
 
 def gen_list_history(rng, n):
-    pool = [render(Sp(rng, rng.choice([0, 0, 1])), gen_selector(rng, maxc=2)) for _ in range(4)]
+    pool = [render_text(rng, gen_selector(rng, maxc=2), rng.choice([0, 0, 1])) for _ in range(4)]
     pool += [pool[0].upper() if pool[0].upper() != pool[0] else pool[0] + '.k', ' ' + pool[1] + ' ']
     ops = []
     size_hint = 0
@@ -640,13 +374,16 @@ def run(ctx):
                        'respelled, mutated and junk members.  distinct = distinct texts / histories; all non-trivial')
     texts = []          # (text, kind)
     ast_cases = []
+    render_cases = []      # (tree, text, flat encoding of tree + spelling)
     for _ in range(n_ast):
         sel = gen_selector(rng)
-        canon = render(Sp(rng, 0), sel)
-        text = render(Sp(rng, 1), sel)
+        canon, canon_enc = A.render(rng, sel, 0)
+        text, text_enc = A.render(rng, sel, 1)
         if not (encodable(canon) and encodable(text)):
             continue
         ast_cases.append((sel, text, canon))
+        render_cases.append((sel, text, text_enc))
+        render_cases.append((sel, canon, canon_enc))
     # ---- implementation runs + oracles
     impl_obs = {}
 
@@ -717,6 +454,7 @@ def run(ctx):
             else:
                 ctx.disagree('prepare_tokens', {'text': t}, w[:60], (m or [])[:60])
         ctx.extra['correspondence'] = {'selectors': len(all_texts), 'agree': agree, 'prepare': len(prep_texts), 'prepare_agree': pag}
+        ctx.extra['correspondence'].update(render_correspondence(ctx, render_cases, obs_of))
     else:
         ctx.broken.append(('correspondence', 'extracted model not available'))
     # ---- list histories
@@ -742,6 +480,47 @@ def run(ctx):
             else:
                 ctx.disagree('selectorlist', case, w[:80], (o or [])[:80])
         ctx.extra.setdefault('correspondence', {}).update({'list_histories': len(cases), 'list_agree': agree})
+
+
+def render_correspondence(ctx, render_cases, obs_of):
+    """Model/Selector.v `render` (the subject of the Coq theorems) against the text the harness wrote: for the same
+    tree and spelling the Coq rendering must be the token sequence cssutils' tokenizer reads from the text, the
+    side conditions sel_ok / sp_ok of the theorems must hold, the counts must be the harness' counts and
+    parse_sel (render sp sel) must be what Selector(text) reports"""
+    from harness import impl
+    outs = ctx.model.run([[163] + enc for _, _, enc in render_cases])
+    agree = in_domain = 0
+    for (sel, text, enc), m in zip(render_cases, outs):
+        case = {'text': text}
+        if not m or m[0] != 1:
+            ctx.disagree('render-decode', case, 'encoding of tree + spelling', m and m[:5])
+            continue
+        if m[1] == 1 and m[2] == 1:
+            in_domain += 1
+        else:
+            ctx.disagree('render-domain', case, 'sel_ok / sp_ok expected to hold for generated trees', m[1:3])
+        if tuple(m[3:7]) != count(sel):
+            ctx.disagree('render-count', case, list(count(sel)), m[3:7])
+        n = m[7]
+        i = 8
+        toks = []
+        for _ in range(n):
+            l = m[i + 1]
+            toks.append((m[i], n2s(m[i + 2:i + 2 + l])))
+            i += 2 + l
+        try:
+            want = [(impl.TOKCODE.get(t[0], 998), t[1]) for t in impl.tokenize(text, full=False)]
+        except Exception as e:   # noqa
+            want = [('crash', type(e).__name__)]
+        o = obs_of(text)
+        res = encode_obs(o[1]) if o[0] == 'ok' else ['crash', o[1]]
+        if toks != want:
+            ctx.disagree('render-tokens', case, want[:40], toks[:40])
+        elif m[i:] != res:
+            ctx.disagree('render-parse', case, repr(o)[:400], decode_model(m[i:]))
+        else:
+            agree += 1
+    return {'render': len(render_cases), 'render_agree': agree, 'render_in_theorem_domain': in_domain}
 
 
 def decode_model(m):
